@@ -40,4 +40,39 @@ def c07() -> int:
     return c.finish()
 
 
-CHECKS = {"C02": c02, "C07": c07}
+REQ = ("hivemc.w_req", "make")
+
+
+def c03() -> int:
+    c = Check("C03", "explicit-state BFS of the real step function (FSX) with a per-request life-cycle history variable")
+    c.assumptions += [
+        "exhaustive only inside the closed worlds and bounds listed under coverage.explorations",
+        "non-pooling requests (allows_pooling=False), as in every shipped input",
+    ]
+    quick = tier() == "quick"
+    needs = ["c03:pickup", "c03:cancel", "c03:cancel_while_vehicle_en_route", "c03:dropoff_later_step",
+             "c03:pickup_and_dropoff_same_step", "c03:stranded", "c03:instruction_to_vehicle_with_passengers",
+             "default:DispatchTrip>Idle"]
+    fsx(c, REQ + ({},), ("hivemc.bundles", "c03", {}), K=3 if quick else 4, H=8 if quick else 10, needs=needs)
+    fsx(c, REQ + ({"dispatcher": True},), ("hivemc.bundles", "c03", {}), K=3 if quick else 4, H=8 if quick else 10, needs=needs[:4])
+    return c.finish()
+
+
+def c17() -> int:
+    c = Check("C17", "explicit-state BFS of the real step function (FSX), deviation-bounded")
+    c.assumptions += ["exhaustive only inside the closed worlds and bounds listed under coverage.explorations"]
+    quick = tier() == "quick"
+    K, H = (3, 8) if quick else (5, 10)
+    needs = ["c17:dispatchtrip_state", "default:DispatchTrip>OutOfService", "default:DispatchTrip>ServicingTrip",
+             "instr:DispatchTrip:DispatchStation:DispatchStation", "instr:DispatchTrip:Idle:Idle",
+             "instr:DispatchTrip:DispatchTrip:DispatchTrip", "c03:cancel_while_vehicle_en_route"]
+    fsx(c, REQ + ({},), ("hivemc.bundles", "c17", {}), K=K, H=H, needs=needs[:-1])
+    fsx(c, REQ + ({"dispatcher": True},), ("hivemc.bundles", "c17", {}), K=K, H=H)
+    fsx(c, REQ + ({"dispatcher": True, "controller": False, "cancel": 600},), ("hivemc.bundles", "c17_builtin", {}), K=3, H=H + 6,
+        needs=["c17:vehicle_under_way_at_step_boundary", "c17:open_request_offered"])
+    fsx(c, REQ + ({"dispatcher": True, "controller": False, "fleets": ("f1", "f2"), "cancel": 600, "name": "W-req/dispatcher-only/2fleets"},),
+        ("hivemc.bundles", "c17_builtin", {}), K=3, H=H + 6)
+    return c.finish()
+
+
+CHECKS = {"C17": c17, "C02": c02, "C03": c03, "C07": c07}
